@@ -185,10 +185,19 @@ def decode(c, a):
     return items
 
 
-_TOL = {"rt": 1e-9, "big": 0.0}     # set per case by compare_case (forward-error bound of the solved system)
+def _floats(x):
+    """all ('f', bits) leaves of a nested structure"""
+    if isinstance(x, tuple) and len(x) == 2 and x[0] == "f":
+        return [x]
+    if isinstance(x, (list, tuple)):
+        return [f for p in x for f in _floats(p)]
+    return []
 
 
-def same(x, y, stats):
+_TOL = {"rt": 1e-9, "big": {}}     # set per case by compare_case (forward-error bound of the solved system)
+
+
+def same(x, y, stats, order=0):
     """structural comparison; floats by bits, else 1e-9 relative (or, for a solved spline, within the forward-error
     bound of its collocation system relative to the largest coefficient); both-NaN equal"""
     if isinstance(x, tuple) and len(x) == 2 and x[0] == "f":
@@ -210,14 +219,21 @@ def same(x, y, stats):
         if _TOL.get("skip"):
             stats["numerically_singular_not_compared"] = stats.get("numerically_singular_not_compared", 0) + 1
             return True
-        if _TOL["rt"] > 1e-9 and math.isfinite(fa) and math.isfinite(fb) and abs(fa - fb) <= _TOL["rt"] * max(abs(fa), abs(fb), _TOL["big"]):
+        big = _TOL["big"].get(order, 0.0) if isinstance(_TOL["big"], dict) else _TOL["big"]
+        if _TOL["rt"] > 1e-9 and math.isfinite(fa) and math.isfinite(fb) and abs(fa - fb) <= _TOL["rt"] * max(abs(fa), abs(fb), big):
             stats["within_cond_bound"] = stats.get("within_cond_bound", 0) + 1
             return True
         return False
     if isinstance(x, (list, tuple)):
         if not isinstance(y, (list, tuple)) or len(x) != len(y):
             return False
-        return all(same(p, q, stats) for p, q in zip(x, y))
+        if len(x) >= 4 and x[0] in ("dual", "dual2") and y[0] == x[0]:
+            # value against the largest coefficient VALUE, sensitivities against the largest coefficient sensitivity of the
+            # same order (a spline whose coefficients carry sensitivities of size 1e14 returns sensitivities with rounding
+            # noise of size 1e14 * epsilon, whatever their own size)
+            return (same(x[1], y[1], stats) and same(x[2], y[2], stats, 0) and same(x[3], y[3], stats, 1)
+                    and all(same(p, q, stats, 2) for p, q in zip(x[4:], y[4:])))
+        return all(same(p, q, stats, order) for p, q in zip(x, y))
     return x == y
 
 
@@ -570,7 +586,7 @@ def compare_case(ctx, ci, c, a, b, stats):
     # among tied candidates, a reciprocal computed once) moves the coefficients of an ill-conditioned collocation system
     # (timestamp-scaled knots, high order, least squares) by cond * epsilon.  Tolerance for a SOLVED spline: 1e-9 +
     # 1e-13 * cond of the system actually solved, relative to the largest coefficient; unsolved splines stay at 1e-9.
-    _TOL["rt"], _TOL["big"], _TOL["skip"] = 1e-9, 0.0, False
+    _TOL["rt"], _TOL["big"], _TOL["skip"] = 1e-9, {}, False
     if c.get("solve"):
         try:
             sv = c["solve"]
@@ -590,11 +606,17 @@ def compare_case(ctx, ci, c, a, b, stats):
             for it in da + db:
                 if it[0] == "csolve" and it[1][0] == "ok" and isinstance(it[1][1], list):
                     for e in it[1][1]:
-                        v = e if (isinstance(e, tuple) and e[0] == "f") else (e[2] if isinstance(e, list) and len(e) > 2 else None)
-                        if v is not None and math.isfinite(b2f(v[1])):
-                            _TOL["big"] = max(_TOL["big"], abs(b2f(v[1])))
+                        if isinstance(e, tuple) and e[0] == "f":
+                            parts = [(0, e)]
+                        elif isinstance(e, list) and len(e) > 3:
+                            parts = [(0, e[2])] + [(1, f) for f in _floats(e[3])] + [(2, f) for f in _floats(e[4:])]
+                        else:
+                            parts = []
+                        for o, v in parts:
+                            if math.isfinite(b2f(v[1])):
+                                _TOL["big"][o] = max(_TOL["big"].get(o, 0.0), abs(b2f(v[1])))
         except Exception:
-            _TOL["rt"], _TOL["big"] = 1e-9, 0.0
+            _TOL["rt"], _TOL["big"] = 1e-9, {}
     for pos, (x, y) in enumerate(zip(da, db)):
         ctx.evaluations += 1
         if x[0] == "csolve" and x[1][0] == "ok":
